@@ -22,7 +22,7 @@ RULE = (
     "different kind (or a different instance) is selected. Distinct = SHA-1 of the case."
 )
 BUDGET = {"quick": {"examples": 150, "shards": 4}, "thorough": {"fuzz_runs": 3000, "examples": 2000, "shards": 16}}
-EXPECTED_LABELS = ("el:init", "el:step", "el:init+step", "el:default", "el:explicit", "use:name", "use:bad-name", "use:spy", "use:real", "use:same-class-instance", "step:default", "step:explicit",
+EXPECTED_LABELS = ("step_fail", "el:init", "el:step", "el:init+step", "el:default", "el:explicit", "use:name", "use:bad-name", "use:spy", "use:real", "use:same-class-instance", "step:default", "step:explicit",
                    "explicit-differs-from-selected", "pair:numpy/SX", "pair:SX/numpy", "pair:MX/numpy", "pair:numpy/MX", "pair:SX/MX",
                    "interior-ramp", "delta", "merge", "bifurcation", "dest:cong", "origin:main")
 ASSUMPTIONS = ["a spy delegates every primitive unchanged; engine-created variables are used for the steps"]
@@ -98,6 +98,9 @@ def cases(draw):
             ops.append(["step", ["spy", draw(st.integers(0, 2))]])
         else:
             ops.append(["step", ["real", draw(st.sampled_from(KINDS))]])
+        if draw(st.integers(0, 5)) == 0:
+            # a step with an explicit engine that fails (a required model parameter is missing)
+            ops.append(["step_fail", draw(st.integers(0, 2))])
         if draw(st.integers(0, 2)) == 0:
             # element-level API on one element: init_vars / step with the default or an explicit spy engine
             ops.append(["el", draw(st.sampled_from(["init", "step", "init+step"])), draw(st.integers(0, 30)),
@@ -193,6 +196,15 @@ def check_case(case, ctx):
                 if r is not inst:
                     ctx.fail("use-instance:return", f"{what}: use(instance) returned {r!r}, not the instance given")
                 model, model_kind = inst, kind_of_engine(inst)
+            elif op[0] == "step_fail":
+                X = spies[op[1]]
+                bad = {k_: v for k_, v in pars.items() if k_ != "tau"}
+                try:
+                    net.step(engine=X, **opts, **bad)
+                    ctx.label("step_fail:did-not-fail")
+                except Exception:
+                    ctx.label("step_fail")
+                state_kind = None  # elements may be half-initialised now
             elif op[0] == "el":
                 # only meaningful when every element already holds quantities of one kind (after a full step)
                 X = model if op[3] is None else spies[op[3]]
